@@ -65,7 +65,7 @@ def make_case(ctx, rng, i, ep, mode, big_share):
 def run(ctx):
     rng = ctx.rng
     modes = drv.QUICK_MODES if ctx.quick else drv.ALL_MODES
-    ncases = 900 if ctx.quick else 12000
+    ncases = 4500 if ctx.quick else 40000
     big_share = 0.01 if ctx.quick else 0.03
     ctx.rule = ("case = (entry point, mode, algorithm, key, data length class, chunk shape); generated from "
                 "VERIF_SEED over hostile keys, boundary sizes (0,1,4095..4097,1MiB-1..1MiB+1,5MiB) and 9 chunk "
